@@ -96,7 +96,8 @@ def analyze(scenario, log):
     started = set()
     pc_expect = {}                     # pid -> (time, log index) of a pattern cancel of the user events that ran while pid was in waite
     capped = [False]
-
+    hold_cleared = set()               # processes whose timers were cleared by ANOTHER process (tclearo) while they were in hold: the
+                                       # hold's own wake-up is a timer of the process (cmb_process_hold arms it with timer_add), so it is gone
 
     def cond_pred(qcmd):
         """(predicate true?, determinable from the log?) of a waiter's `cwait c kind a b`, in the state the log has reached"""
@@ -177,6 +178,7 @@ def analyze(scenario, log):
             if q in open_call and open_call[q][2][0] in ("pacq", "ppre") and int(open_call[q][2][1]) == pl:
                 pool_unknown[pl] = True
         timers[q] = []
+        hold_cleared.discard(q)
         oc_ = open_call.pop(q, None)
         if oc_ is not None and oc_[2][0] in ("bget", "bput") and int(oc_[2][1]) < len(buf_unknown):
             buf_unknown[int(oc_[2][1])] = True   # partial transfers of a call that never returns are not in the log
@@ -279,6 +281,8 @@ def analyze(scenario, log):
             t0, cmd = oc[1], oc[2]
             immediate = immediate and t == t0
             op = cmd[0]
+            if op in BLOCKING:
+                hold_cleared.discard(pid)
             a = [int(x) for x in cmd[1:]]
             if val != 0:
                 believes[pid].clear()          # any other signal is the cue to look at one's holdings again
@@ -338,7 +342,10 @@ def analyze(scenario, log):
                 intrs = [ix for ix, (tt, s, kind) in enumerate(notif[pid])
                          if tt == t and kind == "intr" and s == val and (pid, ix) not in intr_used]
                 if val == -1:
-                    timers[pid] = []          # a preemption clears every timer of the process
+                    # a preemption clears every timer of the process: a pool preemption when its interrupt is dispatched (now), a
+                    # resource preemption already inside the preemptor's call (handled there) - so a timer that ANOTHER process armed
+                    # for this one since (taddo) may or may not have survived: kept as a possible cause, no longer as an obligation
+                    timers[pid] = [dict(tm, sure=False) for tm in timers[pid] if tm.get("other")]
                 elif intrs and fired:
                     # an interrupt and a timer with this value are both due now: which one this return consumed is not
                     # determined by the log (an interrupt would have cleared the timers): keep both explanations open
@@ -425,6 +432,13 @@ def analyze(scenario, log):
                 varh[(pid if a[0] < 8 else -1, a[0])] = extra.get("h")
             elif op == "tclear":
                 timers[pid] = []
+            elif op == "taddo" and 0 <= a[0] < np_:
+                # cmb_process_timer_add on ANOTHER process (returned, i.e. not skipped: the target is started and unfinished)
+                timers[a[0]].append({"due": t + a[1], "sig": a[2], "h": extra.get("h"), "sure": True, "var": None, "other": a[0] != pid})
+            elif op == "tclearo" and 0 <= a[0] < np_:
+                timers[a[0]] = []
+                if a[0] != pid and a[0] in open_call and open_call[a[0]][2][0] == "hold":
+                    hold_cleared.add(a[0])
             elif op == "tcancel":
                 # cancels the timer whose handle is in the variable (= the most recent handle stored there)
                 hv = varh.get((pid if a[0] < 8 else -1, a[0]))
@@ -616,7 +630,7 @@ def analyze(scenario, log):
                 continue
             op = cmd[0]
             a = [int(x) for x in cmd[1:]]
-            if op == "hold":
+            if op == "hold" and pid not in hold_cleared:
                 bad("C04", "process %d is still suspended in hold at quiescence (t=%s)" % (pid, now_final))
             if op == "waitp" and P.get(a[0], {}).get("st") == "2":
                 bad("C09", "process %d is still waiting for process %d, which has ended" % (pid, a[0]))
